@@ -76,6 +76,14 @@ theorem shape_of_hornHead {h : Term} (hh : hornHead h = true) : Shape h := by
     exact Or.inr ⟨f, as, rfl, hh.1⟩
   | _ => simp [hornHead] at hh
 
+theorem shape_of_headOK {h : Term} (hh : headOK h = true) : Shape h := by
+  cases h with
+  | atom f => exact Or.inl ⟨f, rfl⟩
+  | app f as =>
+    simp only [headOK, Bool.and_eq_true, decide_eq_true_eq] at hh
+    exact Or.inr ⟨f, as, rfl, hh.1.1⟩
+  | _ => simp [headOK] at hh
+
 theorem shape_rename {t : Term} (ρ : Nat → Nat) (h : Shape t) : Shape (t.rename ρ) := by
   rcases h with ⟨f, rfl⟩ | ⟨f, as, rfl, hl⟩
   · exact Or.inl ⟨f, rfl⟩
@@ -244,7 +252,7 @@ theorem thunk_head' {fl : Bool} {tmpl : Term} {max : Nat} {cl : Clause} {h b : T
   obtain ⟨hargs, pre, bops, gs, hl, hcode, hpre, hsem, hgoals, hbody⟩ := hcr.info
   -- the clause variables
   let V : Nat → Prop := fun x => h.hasVar x = true ∨ ∃ g0 ∈ gs, (goalTerm g0).hasVar x = true
-  have hhs : Shape h := shape_of_hornHead hl.horn
+  have hhs : Shape h := shape_of_headOK hl.horn
   have hhnv : ∀ w, h ≠ .var w := by
     rcases hhs with ⟨f, rfl⟩ | ⟨f, as, rfl, _⟩ <;> simp
   have hV : ∀ x, V x → x ∈ cl.vars ∧ (h.hasVar x = true ∨ b.hasVar x = true) := by
